@@ -525,7 +525,7 @@ func (s *sess) inject(ci *conn, fl uint32) bool {
 // injectNoWait returns when the poller has handled the batch; read tasks it started may still run
 func (s *sess) injectNoWait(ci *conn, fl uint32) bool {
 	epfd := s.g.VerifEpfd(ci.fd % s.np)
-	return vsys.InjectTimeout(epfd, []syscall.EpollEvent{{Fd: int32(ci.fd), Events: fl}}, 60*time.Second)
+	return vsys.InjectPatient(epfd, []syscall.EpollEvent{{Fd: int32(ci.fd), Events: fl}}, 60*time.Second)
 }
 
 // waitTasks: AsyncReadInPoller — the read tasks started so far have returned (virtual descriptors: a task only ends
